@@ -1,0 +1,34 @@
+//go:build verif
+
+package validators
+
+// Contracts for gvc (see /verif/DESIGN.md). Comment-only: this file adds no code to any build.
+
+//@ func getDiagForRetSig props C10,C14,C18
+//@ requires receiver != nil && receiver.Annotations != nil
+//@ ensures one: implies(len(receiver.RetVals) == 1, result0 == 0 && result1 == nil)
+//@ ensures two: implies(len(receiver.RetVals) == 2, result0 == 1 && result1 == nil)
+//@ ensures bad: implies(len(receiver.RetVals) == 0 || len(receiver.RetVals) > 2, result1 != nil && result1.Severity == diagnostics.DiagnosticError && result1.Code == string(diagnostics.DiagReceiverRetValsInvalidSignature) && result1.FilePath == receiver.Annotations.fileName)
+//@ ensures idx: implies(result1 == nil, 0 <= result0 && result0 < len(receiver.RetVals))
+//@ loop 0 invariant fresh(typeNames)
+
+//@ func ReceiverValidator.validateSecurity props C04,C10,C14
+//@ requires receiver != nil && receiver.Annotations != nil
+//@ requires implies(v.gleeceConfig != nil && v.gleeceConfig.RoutesConfig.AuthorizationConfig.EnforceSecurityOnAllRoutes, v.parentController != nil && v.parentController.Struct.Annotations != nil)
+//@ ensures off: implies(v.gleeceConfig == nil || !v.gleeceConfig.RoutesConfig.AuthorizationConfig.EnforceSecurityOnAllRoutes, result0 == nil && result1 == nil)
+//@ ensures iff: implies(result1 == nil && v.gleeceConfig != nil && v.gleeceConfig.RoutesConfig.AuthorizationConfig.EnforceSecurityOnAllRoutes, (result0 != nil) == (metadata.secCount(*receiver.Annotations) == 0 && metadata.secCount(*v.parentController.Struct.Annotations) == 0 && v.gleeceConfig.OpenAPIGeneratorConfig.DefaultRouteSecurity == nil))
+//@ ensures sev: implies(result0 != nil, result0.Severity == diagnostics.DiagnosticError && result0.Code == string(diagnostics.DiagReceiverMissingSecurity))
+
+//@ func ReceiverValidator.validateParamsCombinations props C10,C14
+//@ requires newParam.FVersion != nil
+//@ ensures (result != nil) == ((newParamType == definitions.PassedInBody && exists(i, 0, len(funcParams), funcParams[i].PassedIn == definitions.PassedInBody || funcParams[i].PassedIn == definitions.PassedInForm)) || (newParamType == definitions.PassedInForm && exists(i, 0, len(funcParams), funcParams[i].PassedIn == definitions.PassedInBody)))
+//@ ensures implies(result != nil, result.Severity == diagnostics.DiagnosticError)
+
+//@ func ReceiverValidator.validateBodyParam props C10,C14
+//@ requires receiver != nil && receiver.Annotations != nil && param.Type.Root != nil && param.Annotations != nil
+//@ ensures (result != nil) == (param.Type.SymbolKind.IsBuiltin() && !(metadata.typeRefKind(param.Type.Root) == metadata.TypeRefKindSlice || metadata.typeRefKind(param.Type.Root) == metadata.TypeRefKindArray))
+//@ ensures implies(result != nil, result.Severity == diagnostics.DiagnosticError && result.Code == string(diagnostics.DiagReceiverInvalidBody) && result.Range == param.Range)
+
+//@ func getParamSchemaNameOrFallback props C10,C14
+//@ requires param.Annotations != nil
+//@ ensures true
